@@ -86,7 +86,19 @@ macro_rules! impl_signed {
 }
 
 impl_signed!( isize i8 i16 i32 i64, 0 );
-impl_signed!( f32 f64, 0.0 );
+macro_rules! impl_signed_float {
+    ($($t:ty)*) => ($(
+        impl Signed for $t {
+            #[inline]
+            fn abs(&self) -> $t {
+                // clears the sign bit, so that the absolute value of -0.0 is +0.0
+                <$t>::abs( *self )
+            }
+        }
+    )*)
+}
+
+impl_signed_float!( f32 f64 );
 
 macro_rules! impl_trait {
     ($name: ident for $($t: ty)*) => ($(
